@@ -3596,3 +3596,99 @@ def sup9(ctx):
     if n < 6:
         raise AnchorMissing("SUP-9: %d length-changing calls found in substitution (expected >= 6)" % n)
     return r
+
+
+# ---------------------------------------------------------------- ENV-8: the mirrored word is the word
+
+def env8(ctx):
+    """Before-contexts are matched on `Word::reverse()`, a mirror image of the word. Whatever a context element can test
+    or capture (`%=1 _`, `%:[tone: 51] _`) it tests on the mirror, so the mirror carries every field of every syllable:
+    it is made from a clone of the word / of each syllable, or every field of `Syllable` is filled from the source."""
+    r = RuleResult("ENV-8", "Word::reverse mirrors the whole word: it starts from a clone (of the word or of each syllable) or fills every field of Syllable (segments, stress, tone) and of Word from the source", floor=1)
+    lib = ctx.lib
+    b = ctx.fn(lib, "asca::word::Word::reverse")
+    root = b.hir["body"]
+    sy = lib.adts.get("asca::syll::Syllable")
+    wd = lib.adts.get("asca::word::Word")
+    if not sy or not wd:
+        raise AnchorMissing("ENV-8: Syllable / Word type not found")
+    syll_fields = {f["name"] for f in sy["variants"][0]["fields"]}
+    word_fields = {f["name"] for f in wd["variants"][0]["fields"]}
+    clones_word = any(x["e"] == "mcall" and x["name"] == "clone" and (x.get("rty") or "").lstrip("&").endswith("word::Word") for x in hirq.walk(root))
+    clones_syll = any(x["e"] == "mcall" and x["name"] in ("clone", "cloned", "to_vec", "to_owned") and "syll::Syllable" in (x.get("rty") or "") + (x.get("ty") or "") for x in hirq.walk(root))
+    problems = []
+    if not clones_word:
+        # a Word literal must name every field (or have a base)
+        lits = [x for x in hirq.walk(root) if x["e"] == "struct" and (x.get("path") or "").endswith(("word::Word", "Self"))]
+        for x in lits:
+            given = {f[0] for f in x.get("fields", [])}
+            if x.get("base") is None and not word_fields <= given:
+                problems.append("the Word literal leaves out %s" % sorted(word_fields - given))
+        if not clones_syll:
+            given = set()
+            for x in hirq.walk(root):
+                if x["e"] == "assign":
+                    l = hirq.strip(x["lhs"])
+                    if l.get("e") == "field" and (l.get("of_ty") or "").lstrip("&").replace("mut ", "").endswith("syll::Syllable"):
+                        given.add(l["name"])
+                if x["e"] == "struct" and (x.get("path") or "").endswith("syll::Syllable"):
+                    given |= syll_fields if x.get("base") is not None else {f[0] for f in x.get("fields", [])}
+            if not syll_fields <= given:
+                problems.append("a mirrored syllable is built without its %s" % ", ".join("`%s`" % f for f in sorted(syll_fields - given)))
+    # no field of the mirror is reset afterwards
+    for x in hirq.walk(root):
+        if x["e"] == "assign":
+            l = hirq.strip(x["lhs"])
+            rhs = hirq.strip(x["rhs"])
+            if l.get("e") == "field" and l["name"] in ("stress", "tone") and rhs.get("e") in ("lit", "path") and not rhs.get("local"):
+                problems.append("`.%s` of the mirror is overwritten with a constant" % l["name"])
+    ok = not problems
+    r.inst("Word::reverse: %s" % ("clones the word" if clones_word else "clones each syllable" if clones_syll else "fills every field of the mirrored syllables"), fn_loc(b), "ok" if ok else "report")
+    if not ok:
+        r.report("ENV-8|Word::reverse", fn_loc(b), b.path,
+                 "the mirrored word that before-contexts are matched on is not a full mirror: %s -- a syllable variable bound in a before-context (`%%=1 _`) captures a syllable without that field, and a context test of it (`%%:[tone: 51] _`) fails on every word" % "; ".join(problems))
+    return r
+
+
+# ---------------------------------------------------------------- TAB-11: [-place] removes the whole place
+
+def tab11(ctx):
+    """`[-place]` (debuccalisation) leaves a segment with no place node. In Segment::apply_seg_mods and in the deromaniser's
+    twin the arm for `NodeKind::Place` of the Negative branch assigns `None` to the whole place, or clears every one of
+    the four sub-nodes."""
+    r = RuleResult("TAB-11", "[-place] clears the whole place: the NodeKind::Place arm of the negative branch assigns None to the place (or clears all four sub-nodes)", floor=2)
+    lib = ctx.lib
+    SUBS = {"Labial", "Coronal", "Dorsal", "Pharyngeal"}
+    NK = "asca::seg::NodeKind::"
+    n = 0
+    for path in ("asca::seg::Segment::apply_seg_mods", "asca::word::Word::alias_apply_mods"):
+        b = ctx.fn(lib, path)
+        for m in hirq.matches(b):
+            if not (m.get("sty") or "").lstrip("&").endswith("seg::NodeKind"):
+                continue
+            arms = [a for a in m["arms"] if any((p.get("path") or "") == NK + "Place" for p in hirq.flat_pats(a["pat"]))]
+            for arm in arms:
+                body = arm["body"]
+                if any(y["e"] == "ret" for y in hirq.walk(body)) or hirq.is_panic_expr(hirq.strip(body)):
+                    continue          # the [+place] arm: an error
+                n += 1
+                whole = False
+                for y in hirq.walk(body):
+                    if y["e"] == "assign":
+                        l = hirq.strip(y["lhs"])
+                        while isinstance(l, dict) and l.get("e") == "unary" and l.get("op") == "Deref":
+                            l = hirq.strip(l["a"])
+                        rhs = hirq.strip(y["rhs"])
+                        if l.get("e") == "field" and l["name"] == "place" and ((rhs.get("path") or "").endswith("Option::None") or (rhs.get("e") == "call" and (hirq.strip(rhs["f"]).get("path") or "").endswith(("Place::default", "Default::default")))):
+                            whole = True
+                named = {(y.get("path") or "")[len(NK):] for y in hirq.walk(body) if y["e"] == "path" and (y.get("path") or "").startswith(NK)}
+                ok = whole or SUBS <= named
+                fn = path.rsplit("::", 1)[-1]
+                r.inst("%s: the [-place] arm %s" % (fn, "assigns None to the place" if whole else "clears the sub-nodes %s" % sorted(named & SUBS)), fn_loc(b, arm.get("ln")), "ok" if ok else "report")
+                if not ok:
+                    r.report("TAB-11|%s" % fn, fn_loc(b, arm.get("ln")), path,
+                             "[-place] does not remove the whole place: the arm clears %s only, so the %s sub-node (and its features) survives debuccalisation -- `C > [-place]` leaves ħ, ʕ, tˤ with a place, still matching [+phr] / [+rtr] and not [-place]"
+                             % (sorted(named & SUBS) or "nothing", ", ".join(sorted(SUBS - named))))
+    if n < 2:
+        raise AnchorMissing("TAB-11: %d [-place] arms found (expected 2: Segment::apply_seg_mods, Word::alias_apply_mods)" % n)
+    return r
